@@ -378,6 +378,9 @@ def wire_items(items, tags):
 DECL_RE = re.compile(r"^\s*(int|float|bool|String)\s+([A-Za-z_]\w*)\s*=\s*(.*);$")
 ASSIGN_RE = re.compile(r"^\s*([A-Za-z_]\w*)\s*=\s*(.*);$")
 FUNC_RE = re.compile(r"^(\w[\w<>]*)\s+(\w+)\((.*)\)\s*\{$")
+# forward declaration of a user function (emitted after the globals since the fix "forward-declare functions"; C10 is about
+# determinism, so the reader accepts a sketch with or without them - a declaration must belong to a definition, though)
+PROTO_RE = re.compile(r"^(\w[\w<>]*)\s+(\w+)\((.*)\);$")
 FOR_RE = re.compile(r"^\s*for \(int (\w+) = 0;")
 
 
@@ -463,9 +466,15 @@ def observe(cpp):
     lines = cpp.splitlines()
     i = 0
     glob, funs, setup, loop = [], [], [], []
+    protos = []
     while i < len(lines):
         ln = lines[i]
         if ln.startswith("#include") or not ln.strip():
+            i += 1
+            continue
+        m = PROTO_RE.match(ln)
+        if m:                                 # must be the header of a definition further down (checked below)
+            protos.append((m.group(1), m.group(2), m.group(3)))
             i += 1
             continue
         m = FUNC_RE.match(ln)
@@ -482,6 +491,8 @@ def observe(cpp):
                 loop = nodes
             else:
                 funs.append([m.group(2), nodes])
+                if (m.group(1), m.group(2), m.group(3)) in protos:
+                    protos.remove((m.group(1), m.group(2), m.group(3)))
             i = j + 1
             continue
         m = DECL_RE.match(ln)
@@ -490,6 +501,8 @@ def observe(cpp):
             i += 1
             continue
         raise ValueError("unexpected top-level line: " + ln)
+    if protos:
+        raise ValueError("forward declaration without a definition: " + protos[0][1])
     return {"globals": glob, "funs": funs, "setup": setup, "loop": loop}
 
 
